@@ -39,15 +39,22 @@ impl Cfg {
         format!(
             "{clock} ttl{} select={} max{}",
             if self.ttl_ms == 0 { "0" } else { "1h" },
-            if self.max_records_selected == 0 { "all" } else { "small-only" },
+            if self.max_records_selected == 0 { "all" } else if self.max_records_selected == TIGHT { "all(tight-target)" } else { "small-only" },
             self.max_per_compaction
         )
     }
 }
 
+/// `max_records_selected` value standing for "all segments below the target, target = 2 x the largest segment + 1"
+const TIGHT: usize = usize::MAX;
+
 fn compaction_config(c: &Cfg, layout: &Layout) -> CompactionConfig {
     let target = if c.max_records_selected == 0 {
         1 << 30
+    } else if c.max_records_selected == TIGHT {
+        // every segment is below the target, but only about two of them fit into it together
+        let largest = layout.segments.iter().map(|s| segment_bytes(&s.iter().map(|u| u.delta()).collect::<Vec<_>>()).len()).max().unwrap_or(0);
+        2 * largest + 1
     } else {
         // between the size of the largest segment with < n records and the smallest with >= n records
         let mut below = 0usize;
@@ -90,7 +97,48 @@ fn kinds_of(layout: &Layout, key: &str) -> String {
 fn check_case(layout: &Layout, cfg: &Cfg) -> Result<bool, (String, String)> {
     let store = build_store(layout);
     let before = recover_fold(&store).map_err(|e| ("harness: recovery of the initial layout failed".to_string(), e))?;
+    let manifest_before = block_on(ManifestManager::new(store.clone(), PREFIX).load()).ok();
     let outcome = run_compaction(&store, cfg, layout);
+    let manifest_after = block_on(ManifestManager::new(store.clone(), PREFIX).load()).ok();
+    // Why was the container that holds an older update of `key` not part of the compaction? (for the tombstone
+    // clause of the property: the known defect is a tombstone dropped although an older value survives in a
+    // checkpoint, in a segment at or above the size target, or in a segment beyond the per-run maximum; a segment
+    // that is below the target and within the maximum and is skipped anyway is something else)
+    let outside_of = |key: &str| -> String {
+        let (Some(mb), Some(ma)) = (&manifest_before, &manifest_after) else { return "outside=unknown".into() };
+        let target = compaction_config(cfg, layout).target_segment_size as u64;
+        let kept: BTreeSet<u64> = ma.segments.iter().map(|s| s.id).collect();
+        let first_id = mb.segments.iter().map(|s| s.id).min().unwrap_or(0);
+        let mut classes: BTreeSet<&'static str> = BTreeSet::new();
+        if layout.checkpoint.as_ref().map(|c| c.iter().any(|u| u.key_name() == key)).unwrap_or(false) {
+            classes.insert("checkpoint");
+        }
+        let mut small_rank = 0usize;
+        for seg in &mb.segments {
+            let small = seg.size_bytes < target;
+            let rank = small_rank;
+            if small {
+                small_rank += 1;
+            }
+            let idx = (seg.id - first_id) as usize;
+            let holds = layout.segments.get(idx).map(|us| us.iter().any(|u| u.key_name() == key)).unwrap_or(false);
+            if !holds || !kept.contains(&seg.id) {
+                continue; // not about this key, or it was compacted
+            }
+            classes.insert(if !small {
+                "oversize-segment"
+            } else if rank >= cfg.max_per_compaction {
+                "segment-beyond-max-count"
+            } else {
+                "eligible-segment-skipped"
+            });
+        }
+        if classes.is_empty() {
+            "outside=nothing".into()
+        } else {
+            format!("outside={}", classes.into_iter().collect::<Vec<_>>().join("+"))
+        }
+    };
     let ctx = || format!("layout {} ; config {} ; compaction: {outcome}", layout.show(), cfg.label());
     if outcome.starts_with("PANIC") {
         return Err((format!("compaction-panic {}", cfg.label()), ctx()));
@@ -147,7 +195,7 @@ fn check_case(layout: &Layout, cfg: &Cfg) -> Result<bool, (String, String)> {
         }
         if view_b == "absent" && view_a != "absent" {
             return Err((
-                format!("deleted-key-resurrected cause={cause} {cp} {sel}"),
+                format!("deleted-key-resurrected cause={cause} {cp} {sel} {}", outside_of(k)),
                 format!("key {k}: recovery before compaction = {} (client reads nothing), after = {} (client reads {view_a}); {}", b.map(|s| s.as_str()).unwrap_or("-"), a.map(|s| s.as_str()).unwrap_or("-"), ctx()),
             ));
         }
@@ -371,7 +419,7 @@ fn main() {
     let cfgs: Vec<Cfg> = {
         let mut v = Vec::new();
         for (clock_ms, ttl_ms) in [(0, HOUR_MS), (HOUR_MS - 1, HOUR_MS), (HOUR_MS + 10, HOUR_MS), (EPOCH_MS, HOUR_MS), (0, 0), (EPOCH_MS, 0)] {
-            for (max_records_selected, max_per_compaction) in [(0usize, 10usize), (2, 10), (0, 2)] {
+            for (max_records_selected, max_per_compaction) in [(0usize, 10usize), (2, 10), (0, 2), (TIGHT, 10)] {
                 v.push(Cfg { clock_ms, ttl_ms, max_records_selected, max_per_compaction });
             }
         }
@@ -460,7 +508,7 @@ fn main() {
     let coverage = json!({
         "evaluations": cases.load(Ordering::Relaxed) + race_execs,
         "distinct_nontrivial": compacted.load(Ordering::Relaxed) + race_outcomes.len() as u64,
-        "rule": "(a) every set of 2-3 updates, plus every set of 4 (thorough: 5) over a tiny universe (k1: {SET a, DEL} x time 1..3 x replica 1; two updates of k2) (thorough: also 4 over a reduced universe and 4 over all key-1 updates with times 1..2) from a universe of 38 updates (key k1: {SET a, SET b, DEL, HSET f, HSET g, HDEL f} x logical time 1..3 x replica 1..2; two updates of k2) whose merge is order-independent, placed in every way into >=2 ordered segments (optionally one update in a checkpoint), x 18 configurations (clock in {0, ttl-1, ttl+10, production epoch} x ttl in {1h, 0}; all segments selected / only single-record segments / at most 2 per compaction): recovered state before vs after one real compact(); a case is non-trivial when compaction actually rewrote segments; (b) every interleaving of the store operations of compact() and a concurrent flush() for the listed layouts",
+        "rule": "(a) every set of 2-3 updates, plus every set of 4 (thorough: 5) over a tiny universe (k1: {SET a, DEL} x time 1..3 x replica 1; two updates of k2) (thorough: also 4 over a reduced universe and 4 over all key-1 updates with times 1..2) from a universe of 38 updates (key k1: {SET a, SET b, DEL, HSET f, HSET g, HDEL f} x logical time 1..3 x replica 1..2; two updates of k2) whose merge is order-independent, placed in every way into >=2 ordered segments (optionally one update in a checkpoint), x 24 configurations (clock in {0, ttl-1, ttl+10, production epoch} x ttl in {1h, 0}; all segments selected / only single-record segments / at most 2 per compaction): recovered state before vs after one real compact(); a case is non-trivial when compaction actually rewrote segments; (b) every interleaving of the store operations of compact() and a concurrent flush() for the listed layouts",
         "update_sets_considered": sets.len(),
         "update_sets_with_order_dependent_merge_excluded": order_dependent,
         "layouts": layouts_n.load(Ordering::Relaxed),
